@@ -13,6 +13,7 @@ mod p_entropy;
 mod p_resolver;
 mod p_stage;
 mod p_wire;
+mod procsim;
 mod reader;
 mod props;
 mod rsim;
